@@ -79,11 +79,14 @@ theorem C04_no_epoch_reuse_engine {P : Program} (hP : P.WF) {evs : List Event} {
     (∀ k, (s.db.res k).builtAt ≤ s.epoch ∧ (s.db.res k).computedAt ≤ s.epoch) :=
   ⟨(reach_invC hP hrun hnd).memE, (reach_inv hP hrun hnd).dbE⟩
 
-/-- Every committed row describes a completed execution together with the dependency list of that
-same execution (the ghost record `GoodRec`), and its recorded dependencies are epoch-sound. -/
+/-- Every committed row whose signature is one the client program can give the rule (`SigOf`: the only
+rows the engine ever reuses — a row with any other signature is re-run, reason 1) describes a
+completed execution of that program together with the dependency list of that same execution (the
+ghost record `GoodRec`); and the recorded dependencies of EVERY committed row are epoch-sound. -/
 theorem C04_committed_rows_good {P : Program} (hP : P.WF) {evs : List Event} {s : St}
     (hrun : run P {} evs = some s) (hnd : s.pendingDropped = false) :
-    ∀ k, (s.cdb.res k).builtAt ≠ 0 → GoodRec P s.cdb k ∧ FreshRec s.cdb [] k := by
+    ∀ k, (s.cdb.res k).builtAt ≠ 0 →
+      (SigOf P k (s.cdb.res k).sig → GoodRec P s.cdb k) ∧ FreshRec s.cdb [] k := by
   intro k hk
   exact (reach_invC hP hrun hnd).dbGood k hk
 
